@@ -123,7 +123,7 @@ func ZZ_C12_Restart() {
 		zz.Assert(mgr.AddTag(name, color, def) == nil, "addtag")
 		acked = append(acked, zzAck{name, color, def})
 	}
-	zzThreshold = zz.Range("threshold", 1, 6)
+	zzThreshold = zz.Range("threshold", 1, zz.Param("thresholdmax", 6))
 	add("tag/big", "#111111", zzBigDef())
 	add("service/web", "#222222", "sport:80")
 	add("tag/all", "#333333", "id:0:")
